@@ -608,6 +608,57 @@ fn capacity() -> (u64, Vec<Violation>) {
             }
         }
     }
+    // ports with different announce intervals: the BMCA runs at the fastest port's interval, every
+    // port's window is four of its OWN intervals.  A master announcing once per interval of the slow
+    // port (in each possible phase against the BMCA runs) must qualify with its second Announce,
+    // stay parent as long as it announces, and be gone five of the slow intervals after it stopped.
+    for (fast, slow) in [(0i8, 2i8), (-1, 1), (0, 3)] {
+        let ratio = 1usize << (slow - fast) as usize;
+        for phase in 0..ratio {
+            for slow_port in [0usize, 1] {
+                evals += 1;
+                let mut node = NodeSpec::default();
+                node.ports = vec![PortSpec::default(), PortSpec::default()];
+                node.ports[slow_port].log_announce = slow;
+                node.ports[1 - slow_port].log_announce = fast;
+                let r = with_node::<RecFilter, _>(&node, |_| RecCfg(Default::default(), false), |nd| {
+                    let mut a = Peer::gm(1, 1);
+                    a.log_announce = slow;
+                    let mut bad: Vec<String> = vec![];
+                    let a_clock = a.pid.clock;
+                    let is_parent = |nd: &mut Node<'_, RecFilter>| nd.inst.parent_ds().parent_port_identity.clock_identity.0 == a_clock && matches!(simcore::scen::port_state(nd, slow_port), PS::Slave);
+                    let periods = 8usize;
+                    let mut announces = 0;
+                    for run in 0..(periods * ratio) {
+                        if run % ratio == phase {
+                            let f = a.announce();
+                            let _ = simcore::scen::general(nd, slow_port, &f);
+                            announces += 1;
+                        }
+                        let _ = nd.bmca();
+                        if announces >= 2 && !is_parent(nd) {
+                            bad.push(format!("BMCA run {run}: the master has announced {announces} times, once per interval of the slow port, and is not the parent"));
+                            break;
+                        }
+                    }
+                    for _ in 0..(5 * ratio + 1) {
+                        let _ = nd.bmca();
+                    }
+                    if is_parent(nd) {
+                        bad.push("five slow intervals of silence: the master is still the parent".into());
+                    }
+                    bad
+                });
+                for m in r {
+                    out.push(Violation {
+                        signature: format!("unequal-port-intervals:{}", if m.contains("silence") { "silent-master-still-parent" } else { "sustained-best-master-not-parent" }),
+                        message: format!("{m} [announce intervals 2^{fast} s and 2^{slow} s, master on port {}, phase {phase}]", slow_port + 1),
+                        replay: json!({"kind": "capacity", "fast": fast, "slow": slow, "phase": phase, "slow_port": slow_port}),
+                    });
+                }
+            }
+        }
+    }
     (evals, out)
 }
 
